@@ -30,6 +30,12 @@ type Case struct {
 	B    []int  `json:"b"`
 	A2   []int  `json:"a2,omitempty"`
 	B2   []int  `json:"b2,omitempty"`
+	// NilA / NilB: an empty input on that side is handed to the source as a nil slice instead of an empty
+	// non-nil one (WrapIntSlice(nil) is what mixer_test.go itself uses). Shared: input 2 is served from the very
+	// same slice as input 1 (B/B2 are ignored; the two iterators are independent, the elements coincide).
+	NilA   bool `json:"nil_a,omitempty"`
+	NilB   bool `json:"nil_b,omitempty"`
+	Shared bool `json:"shared,omitempty"`
 	KA   string `json:"ka"`
 	KB   string `json:"kb"`
 	Sel  string `json:"sel"`
@@ -55,32 +61,46 @@ type Info struct {
 	ReInitEmpty  bool // ... with at least one empty new input
 	ReInitDiff   bool // ... with inputs that differ from the previous ones
 	SelCalls     int  // selector calls made by the mixer
+	NilInput     bool // an empty input was served from a nil slice
+	ResetNil     bool // successful Reset with a nil-slice input
+	SharedSlice  bool
+	Extreme      bool // a value below 1 or above 2^31
+	LongInput    bool // an input of >= 500 elements
 	Sorted       bool // both inputs sorted under the selector (lt/le ascending, gt descending), both non-empty
 	Emitted      int
 }
 
-// element encoding: value<<15 | generation<<8 | side<<7 | index, so every element of a case is unique
+// element encoding: value<<21 | 1<<20 | generation<<14 | side<<13 | index, so every element of a case is unique
 // (also across re-Inits: generation = number of Init calls before) and the origin of each emitted
-// element is observable (ties, stale look-ahead!). Selectors see value = e>>15 only; 0 is never an element.
-func enc(vals []int, side, gen int) []int {
+// element is observable (ties, stale look-ahead!). Selectors see value = e>>21 only; bit 20 makes sure
+// that the zero value is never an element. Values may be negative (|value| < 2^42), index < 8192.
+const (
+	maxLen   = 8191
+	maxValue = 1 << 42
+)
+
+func enc(vals []int, side, gen int, nilIfEmpty bool) []int {
+	if len(vals) == 0 && nilIfEmpty {
+		return nil
+	}
 	out := make([]int, len(vals))
 	for i, v := range vals {
-		out[i] = v<<15 | (gen&127)<<8 | side<<7 | i
+		out[i] = v<<21 | 1<<20 | (gen&63)<<14 | side<<13 | i
 	}
 	return out
 }
 
-func val(e int) int { return e >> 15 }
+func val(e int) int { return e >> 21 }
 
 func show(e int) string {
-	if e < 1<<15 {
+	if e&(1<<20) == 0 {
 		return fmt.Sprintf("raw(%d)", e)
 	}
 	g := ""
-	if gen := (e >> 8) & 127; gen > 0 {
+	if gen := (e >> 14) & 63; gen > 0 {
 		g = fmt.Sprintf(" of Init #%d", gen)
 	}
-	return fmt.Sprintf("%d(%c[%d]%s)", val(e), "AB"[(e>>7)&1], e&127, g)
+	return fmt.Sprintf("%d(%c[%d]%s)", val(e), "AB"[(e>>13)&1], e&8191, g)
 }
 
 func selector(id string) iterable.SelectF[int] {
@@ -166,12 +186,18 @@ func Run(c Case) (info Info, v *vstat.Violation) {
 
 func run(c Case, info *Info) *vstat.Violation {
 	for _, s := range [][]int{c.A, c.B, c.A2, c.B2} {
-		if len(s) > 99 {
-			panic("inputs longer than 99 are not encodable")
+		if len(s) > maxLen {
+			panic("inputs longer than 8191 are not encodable")
+		}
+		if len(s) >= 500 {
+			info.LongInput = true
 		}
 		for _, v := range s {
-			if v < 1 {
-				panic("values must be >= 1")
+			if v <= -maxValue || v >= maxValue {
+				panic("values must be in (-2^42, 2^42)")
+			}
+			if v < 1 || v > 1<<31 {
+				info.Extreme = true
 			}
 		}
 	}
@@ -211,7 +237,16 @@ func run(c Case, info *Info) *vstat.Violation {
 		if gen%2 == 1 {
 			va, vb = c.A2, c.B2
 		}
-		a, b = enc(va, 0, gen), enc(vb, 1, gen)
+		a = enc(va, 0, gen, c.NilA)
+		if c.Shared {
+			b, vb = a, va
+			info.SharedSlice = true
+		} else {
+			b = enc(vb, 1, gen, c.NilB)
+		}
+		if a == nil || b == nil {
+			info.NilInput = true
+		}
 		i, j = 0, 0
 		sa, sb = source(c.KA, a), source(c.KB, b)
 		if c.KA == KDisparity {
@@ -359,6 +394,9 @@ func run(c Case, info *Info) *vstat.Violation {
 			if sinceReset > 0 && !sawEnd {
 				info.ResetMid = true
 			}
+			if a == nil || b == nil {
+				info.ResetNil = true
+			}
 			i, j = 0, 0
 			lastH, hRun, sawEnd, sinceReset = nil, 0, false, 0
 		case 'i':
@@ -475,6 +513,13 @@ func (c Case) Hash() uint64 {
 		mix(uint64(int64(v)))
 	}
 	mix(0xfffb)
+	for _, f := range []bool{c.NilA, c.NilB, c.Shared} {
+		if f {
+			mix(1)
+		} else {
+			mix(2)
+		}
+	}
 	mixs(c.KA)
 	mixs(c.KB)
 	mixs(c.Sel)
@@ -492,7 +537,7 @@ func (i Info) NonTrivial() bool {
 
 // Classes for the histogram.
 func (i Info) Classes() []string {
-	c := make([]string, 0, 12)
+	c := make([]string, 0, 16)
 	add := func(b bool, s string) {
 		if b {
 			c = append(c, s)
@@ -517,5 +562,10 @@ func (i Info) Classes() []string {
 	add(i.ReInitEmpty, "reinit_with_an_empty_input")
 	add(i.ReInitDiff, "reinit_with_different_inputs")
 	add(i.SelCalls > 0, "selector_consulted")
+	add(i.NilInput, "empty_input_is_nil_slice")
+	add(i.ResetNil, "reset_ok_with_nil_slice_input")
+	add(i.SharedSlice, "both_inputs_share_one_slice")
+	add(i.Extreme, "negative_zero_or_huge_values")
+	add(i.LongInput, "input_ge_500_elements")
 	return c
 }
